@@ -40,7 +40,7 @@ CHARS = "abc xyzé,:[]{}中 '"
 
 
 def gen_str(rng, n=None):
-    n = rng.choice([0, 1, 3, 8, 40]) if n is None else n
+    n = rng.choice([0, 1, 3, 8, 40, 40, 147, 148, 149, 150, 197, 260]) if n is None else n
     return "".join(rng.choice(CHARS) for _ in range(n))
 
 
@@ -67,6 +67,13 @@ def gen_threshold_list(rng):
     w = rng.choice([1, 2, 3, 5, 8, 9])
     items = []
     total = 0
+    if rng.random() < 0.15:
+        # an element that alone does not fit into a line, at the front / somewhere / at the end
+        target = rng.randint(200, 420)
+        long_one = gen_str(rng, rng.choice([146, 147, 148, 149, 150, 151, 180]))
+        items = [gen_scalar(rng, rng.randint(1, 8)) for _ in range(rng.randint(0, 12))]
+        items.insert(rng.choice([0, 0, len(items), rng.randint(0, len(items))]), long_one)
+        return items
     while total < target:
         ww = w if rng.random() < 0.7 else rng.randint(1, 9)
         v = gen_scalar(rng, ww)
